@@ -345,6 +345,68 @@ def moving_clock_cases():
     return out
 
 
+def _untemper(y):
+    """Inverse of the Mersenne Twister's output tempering (32-bit)."""
+    def unshift_right(y, s):
+        x = y
+        for _ in range(32 // s + 1):
+            x = y ^ (x >> s)
+        return x & 0xFFFFFFFF
+
+    def unshift_left(y, s, mask):
+        x = y
+        for _ in range(32 // s + 1):
+            x = y ^ ((x << s) & mask)
+        return x & 0xFFFFFFFF
+    y = unshift_right(y, 18)
+    y = unshift_left(y, 15, 0xEFC60000)
+    y = unshift_left(y, 7, 0x9D2C5680)
+    return unshift_right(y, 11)
+
+
+def extreme_draw_cases():
+    """RAND / RANDBETWEEN at the ends of the generator's range: numpy's global generator is
+    put in the states whose next draw is k / 2**53 for the smallest and the largest k; the
+    value stays in [0, 1) (in bottom..top for RANDBETWEEN) for every state."""
+    import numpy as np
+    f = impl.F()
+    out = []
+
+    def set_next(ks):
+        key = np.random.get_state()[1].copy()
+        for i, k in enumerate(ks):
+            a, b = k >> 26, k & (2 ** 26 - 1)
+            key[2 * i] = _untemper(a << 5)
+            key[2 * i + 1] = _untemper(b << 6)
+        np.random.set_state(('MT19937', key, 0))
+    top = 2 ** 53
+    set_next([top - 1, 12345])
+    if not (np.random.rand() == 1 - 2.0 ** -53 and np.random.rand() == 12345 / 2.0 ** 53):
+        return [('generator', 'numpy', 0, 'the generator could not be positioned')], False
+    ks = [0, 1, 2, top // 2, top - 4, top - 3, top - 2, top - 1]
+    texts = [('=RAND()', 0.0, 1.0, False), ('=IF(TRUE,2*RAND(),5)', 0.0, 2.0, False),
+             ('=RANDBETWEEN(1,10)', 1.0, 10.0, True), ('=RANDBETWEEN(-3,-1)', -3.0, -1.0, True),
+             ('=RANDBETWEEN(0.5,2.5)', 1.0, 2.0, True)]
+    for text, lo, hi, closed in texts:
+        fn_ = f.Parser().ast(text)[1].compile()
+        m = f.ExcelModel().from_dict({'A1': text, 'B1': '=A1+0'})
+        for k in ks:
+            for way, run in (('compile', fn_), ('model', lambda m=m: m.calculate()['A1'])):
+                set_next([k] * 8)
+                try:
+                    v = scalar(run())
+                except BaseException as ex:  # noqa
+                    if isinstance(ex, (KeyboardInterrupt, SystemExit)):
+                        raise
+                    out.append((text, way, k, 'raises %s' % type(ex).__name__))
+                    continue
+                x = v.get('x') if v.get('k') == 'f' else None
+                ok = x is not None and (lo <= x <= hi if closed else lo <= x < hi)
+                out.append((text, way, k, None if ok else 'draw %d / 2**53 gives %s, outside %s%r, %r%s'
+                            % (k, V.show(v), '[', lo, hi, ']' if closed else ')')))
+    return out, True
+
+
 def _bounds_shard(items):
     """RANDBETWEEN(bottom, top) drawn repeatedly: every value in the allowed set of
     RandBetween.tla (or #NUM! when it is empty), and not always the same one."""
@@ -402,6 +464,18 @@ def main():
                           {'formula': text, 'way': way, 'clock_starts_at': t0, 'problem': bad,
                            'how': 'the clock of formulas.functions.date advances 2 ms at every '
                                   'reading; one evaluation; the value against its own readings'})
+    # ---- the ends of the generator's range --------------------------------------------
+    ex_cases, positioned = extreme_draw_cases()
+    rep.cov['generator_positioned_at_extreme_draws'] = positioned
+    for text, way, k, bad in ex_cases:
+        if not positioned:
+            break           # another generator behind numpy.random: nothing is concluded
+        rep.count()
+        rep.distinct(('xd', text, way, k))
+        if bad:
+            rep.violation({'kind': 'extreme-draw', 'text': text, 'way': way, 'k': str(k)},
+                          {'formula': text, 'way': way, 'draw': '%d / 2**53' % k, 'problem': bad,
+                           'how': 'numpy.random.set_state so that the next draws are k / 2**53'})
     # ---- RANDBETWEEN: an integer within its bounds ----------------------------------
     from ..tlc import parse_obl
     rb = run_tlc('RandBetween', 'RandBetween.cfg')
